@@ -92,6 +92,12 @@ def cmd_check(a) -> int:
                                                   'diverged')})
     ev['coverage']['known_findings_seen'] = [ln for ln in lines
                                              if ln.startswith('KNOWN')]
+    # `violations` counts what makes the check exit 1: hits of signatures
+    # that known_findings.json does not list; hits of listed findings are
+    # reported separately
+    ev['coverage']['known_finding_hits'] = sum(
+        cnt for k, cnt, sigs in seen_known.values())
+    ev['violations'] = sum(vd['sigs'][sig] for sig in new_sigs)
     ev['coverage']['inconclusive'] = {
         k: v for k, v in vd['by_status'].items() if k != 'ok'}
     if not os.environ.get('DST_NO_EVIDENCE'):
